@@ -471,6 +471,16 @@ def tag(repo: Repo) -> List[Ob]:
         he, hk = _hdr(e), _hdr(k)
         return he is not None and hk is not None and ccfg.must_pass_through(hk, {he})
     covered = bool(kron_loops) and all(any(src(e.iter) == src(k.iter) and _before(e, k) for e in exp_loops) for k in kron_loops)
+    if not kron_loops:
+        # functional form: reduce(jnp.kron, (p.state for p in SELECTED), init) – the expansion loop over SELECTED has to lie on every path to it
+        for nd in ccfg.nodes:
+            for x in walk_node(nd):
+                if isinstance(x, ast.Call) and (dotted(x.func) or "").split(".")[-1] == "reduce" and len(x.args) >= 2 and call_np(ast.Call(func=x.args[0], args=[], keywords=[])) == "kron" \
+                        and isinstance(x.args[1], (ast.GeneratorExp, ast.ListComp)) and len(x.args[1].generators) == 1 and src(x.args[1].elt).endswith(".state"):
+                    it = src(x.args[1].generators[0].iter)
+                    hdrs = {h for e in exp_loops if src(e.iter) == it for h in [_hdr(e)] if h is not None}
+                    covered = bool(hdrs) and ccfg.must_pass_through(nd, hdrs)
+                    kron_loops = [x]
     (obs.append(ok("TAG", cmb, "sources-promoted-by-expand", ("C07", "C08"), cmb.node, "absorbed product spaces are expanded (and re-tagged) by their own expand() before their blocks are read")) if covered else
      obs.append(bad("TAG", cmb, "sources-promoted-by-expand", ("C07", "C08"), kron_loops[0] if kron_loops else cmb.node,
                     "the product spaces that are absorbed are no longer brought to the common level with their own expand(): their members keep reporting the old level inside the new product space")))
